@@ -123,10 +123,47 @@ def doUpd (T : Tun) (ob : Obj) (item : String) (w : Nat) (hint : Option Nat) : O
       else 0
     some { ob with l1 := update T ob.l1 item w a, l2 := none }
 
-def doMerge (T : Tun) (d s : Obj) : Obj × String :=
+/-- descending list of the distinct sample values `≤ med` (candidate purge amounts of one purge) -/
+def candidates (sample : List Nat) (med : Nat) : List Nat :=
+  ((sortNat sample).filter (fun v => 0 < v && v ≤ med)).eraseDups.reverse
+
+/-- Angelic resolution of the purge amounts INSIDE a merge (they are not observable one by one): find amounts,
+    each `≤` the median of the code's sample at that purge, that add up to `remaining` (= observed offset delta
+    minus the operand's offset). The all-medians choice is tried first. `fuel` bounds the number of visited nodes. -/
+partial def mergeSearch (T : Tun) (s : St2) (ents : List (Nat × Nat)) (log : List (Ent Nat)) (remaining : Nat)
+    (fuel : Nat) : Option (St2 × List (Ent Nat)) × Nat :=
+  if fuel = 0 then (none, 0) else
+  match ents with
+  | [] => (if remaining = 0 then some (s, log) else none, fuel - 1)
+  | (k, w) :: t =>
+    let (sMed, aMed) := update2 T idHash id s k w
+    if aMed = 0 then mergeSearch T sMed t ((k, w, 0) :: log) remaining (fuel - 1)
+    else
+      let t1 := (s.tab.internalAdjustOrInsert idHash k w).1
+      let rec tryAll (cs : List Nat) (fuel : Nat) : Option (St2 × List (Ent Nat)) × Nat :=
+        match cs with
+        | [] => (none, fuel)
+        | a :: cs' =>
+          if a > remaining then tryAll cs' fuel else
+          let (s', _) := update2 T idHash (fun _ => a) s k w
+          match mergeSearch T s' t ((k, w, a) :: log) (remaining - a) (fuel - 1) with
+          | (some r, f) => (some r, f)
+          | (none, f) => if f = 0 then (none, 0) else tryAll cs' f
+      tryAll (candidates (t1.sample T) aMed) (fuel - 1)
+
+def doMerge (T : Tun) (d s : Obj) (hint : Option Nat) : Obj × String :=
   match d.l2, s.l2 with
   | some d2, some s2 =>
     let (r2, log) := merge2 T idHash id d2 s2
+    -- observed offset delta that the all-medians replay does not explain: search the purge amounts
+    let (r2, log) :=
+      match hint with
+      | some dl =>
+        if s2.tab.numActive = 0 || r2.offset = d2.offset + dl || dl < s2.offset then (r2, log) else
+        match (mergeSearch T d2 (s2.tab.iterOrder T) [] (dl - s2.offset) 20000).1 with
+        | some (r, lg) => ({ r with offset := r.offset + s2.offset, total := d2.total + s2.total }, lg.reverse)
+        | none => (r2, log)
+      | none => (r2, log)
     let ents : List (Ent String) := log.map (fun e => (toString e.1, e.2.1, e.2.2))
     ({ d with l1 := merge T d.l1 s.l1 ents, l2 := some r2 }, "")
   | _, _ =>
@@ -172,13 +209,13 @@ def stepLine (T : Tun) (o : Objs) (w : List String) : Objs × String :=
           match doUpd T ob item n (parseHint ob.wty rest) with
           | some ob' => (o.set' id ob', obsS T ob')
           | none => (o, "bad-op")
-  | "merge" :: d :: s :: _ =>
+  | "merge" :: d :: s :: rest =>
     match d.toNat?, s.toNat? with
     | some d, some s =>
       match o.get' d, o.get' s with
       | some dob, some sob =>
         if dob.wty != sob.wty || dob.ity != sob.ity then (o, "bad-op") else
-        let (ob', mark) := doMerge T dob sob
+        let (ob', mark) := doMerge T dob sob (parseHint dob.wty rest)
         (o.set' d ob', obsS T ob' mark)
       | _, _ => (o, "throw")
     | _, _ => (o, "bad-op")
